@@ -122,11 +122,32 @@ def run(chk, tier, replay=None):
                           % (sp, sig, r.san[0][1][:400] if r.san else r.err[-200:]), {"specs": sp})
             continue
         bad = []
+        badj = set()
         for j, b in enumerate(base):
             want, got = solo[b], pr[j]
             if got != want:
                 bad.append("session %d (%s): alone %s, together %s" % (j, b, want, got))
+                badj.add(j)
         if bad:
+            # An encoder session's own output is schedule dependent in 1-3 % of runs (C04's TPL finding): a difference
+            # is attributed to the company the session keeps only if the same session differs from its solo output in
+            # two more runs of the same pairing as well.
+            confirmed = set(badj)
+            for rep in range(2):
+                prefix2 = os.path.join(chk.dir, "again-%s-%d" % (core.sha(" ".join(sp)), rep))
+                r2 = core.run([exe] + sp, timeout=600, env=sanlog.env_for(flav, prefix2))
+                pr2 = parse(r2.out)
+                sanlog.collect(prefix2)
+                if r2.timed_out or len(pr2) != len(sp):
+                    break  # cannot compare: keep what was seen
+                confirmed &= set(j for j, b in enumerate(base) if pr2[j] != solo[b])
+                if not confirmed:
+                    break
+            if not confirmed:
+                chk.inconclusive_case("a session differed from its solo output once and matched it when the same pairing ran "
+                                      "again: schedule-dependent output (C04's subject), not interference", {"specs": sp})
+                chk.bump("differences_not_reproduced")
+                continue
             chk.violation("C17|output-differs|%s" % k, "; ".join(bad)[:600], {"specs": sp})
         elif any(kk.startswith("asan") and kk not in solo_keys and not core.match_known("C11", "C11|" + kk, chk.known)
                  for kk, _ in r.san):
